@@ -625,6 +625,14 @@ def capture_final(rep, repo):
         rep.violate('C03.capture', mod, g, f's[3]={st.get(3)}; s[6]={st.get(6)}', 'wave_capture_gpu must store the initial value (first entry <= TMIN) in s[3] and final in s[6]', node=g)
 
 
+def depends(rep, repo):
+    """Rules of the mechanisms this property's results rest on (schedule validity and memory map of SimOps): a change
+    that breaks them breaks this property too, so they are part of this check (rule ids keep their C07./C08. prefix)."""
+    from checks import c07, c08
+    c07.schedule_rules(rep, repo)
+    c08.map_rules(rep, repo)
+
+
 def thorough(rep, repo):
     """Thorough tier: the quick rules plus checker self-validation on the C03 slice of the mutation corpus."""
     from kvstatic import thorough as thorough_mod
